@@ -94,7 +94,16 @@ def r07_4(ctx):
                            [smf.Ev('message', 'note_on', smf.msg_attrs('note_on', '0'), 0),
                             smf.Ev('message', 'sysex', {'data': AList([], 'tuple')}, bad)], m, expect_write_error='ValueError')
         n += 3
-    ctx.floor('R07.4', n, 21)
+    # a negative (or non-integer) time on an end_of_track in the middle of a track must not be absorbed into the next delta
+    for bad, label in ((-3, 'negative'), (1.5, 'float'), (-1.5, 'negative float')):
+        for pos, evs in (('middle', [smf.Ev('message', 'note_on', smf.msg_attrs('note_on', '1'), 10), smf.Ev('meta', 'end_of_track', {}, bad),
+                                     smf.Ev('message', 'note_off', smf.msg_attrs('note_off', '2'), 3)]),
+                         ('first', [smf.Ev('meta', 'end_of_track', {}, bad), smf.Ev('message', 'note_on', smf.msg_attrs('note_on', '1'), 5)]),
+                         ('before-the-last', [smf.Ev('message', 'note_on', smf.msg_attrs('note_on', '1'), 1), smf.Ev('meta', 'end_of_track', {}, bad),
+                                              smf.Ev('meta', 'end_of_track', {}, 7)])):
+            smf.check_scenario(ctx, ai, f'time:{label}-end_of_track-{pos}', evs, m, expect_write_error='ValueError')
+            n += 1
+    ctx.floor('R07.4', n, 30)
     # table agreement
     rt = ctx.f.table(codec.SPECS_MOD, 'REALTIME_TYPES')
     S = codec.specs(ctx)
